@@ -52,7 +52,8 @@ def nyqfree(a, D, N):
 def t_translation(cls, D, N, order, shift, seed, opts=None):
     ex, jnp = _ex()
     kw = dict(order=order) if registry.has_order(cls) and cls != "DifficultyLinearStepperSimple" else {}
-    s = registry.make(cls, D, N, dt=0.02, **kw, **dict(opts or {}))
+    kw.update(dict(opts or {}))
+    s = registry.make(cls, D, N, dt=0.02, **kw)
     u = jnp.asarray(0.4 * np.random.default_rng(seed).standard_normal((s.num_channels,) + (N,) * D))
     T = lambda v: jnp.roll(v, tuple(shift), axis=tuple(range(1, D + 1)))
     a, b = np.asarray(s(T(u))), np.asarray(T(s(u)))
@@ -145,6 +146,13 @@ def witness(ctx):
             for D in (ds if deep else (ds[(j + ctx.seed) % len(ds)],)):
                 N = {1: 10, 2: 8, 3: 6}[D] if (j + ctx.seed) % 2 else {1: 9, 2: 7, 3: 7}[D]
                 ctx.check("translation", dict(cls=cls, D=D, N=N, order=2, shift=[int(x) for x in rng.integers(1, N, size=D)], seed=ctx.seed, opts=opts))
+    # Kolmogorov forcing with injection modes that are sums of two squares (5 = 3^2 + 4^2 in magnitude, 10, 13): only the mode (0, k)
+    # may be forced, so shifts along x_0 must still commute
+    for cls, D in (("KolmogorovFlowVorticity", 2), ("GeneralVorticityConvectionStepper", 2), ("KolmogorovFlowVelocity", 3)):
+        for kinj, N in ((5, 16), (10, 24)) if D == 2 else ((5, 12),):
+            if deep or kinj == 5:
+                sh = [int(rng.integers(1, N))] + [0] * (D - 1) if D == 2 else [int(rng.integers(1, N)), 0, int(rng.integers(1, N))]
+                ctx.check("translation", dict(cls=cls, D=D, N=N, order=2, shift=sh, seed=ctx.seed, opts=dict(injection_mode=kinj, injection_scale=0.8)))
     # exhaustive shifts on a small grid for two nonlinear steppers, and a grid with fractional dealiasing cutoff
     for sh in (itertools.product(range(6), repeat=2) if deep else [(1, 0), (0, 5), (3, 2), (5, 5)]):
         ctx.check("translation", dict(cls="Burgers", D=2, N=6, order=2, shift=list(sh), seed=ctx.seed), nontrivial=any(sh))
